@@ -266,6 +266,7 @@ func (h *c10mH) apply(label string) bool {
 	}
 	staleAtStart := k.extDirty || k.mapViewStale
 	readsAtStart := k.reads
+	recreatesAtStart := k.recreates
 	k.injRunFired, k.injAfterCommit, k.natRunFailed, k.injListRulesFired, k.injListFired, k.raceFired, k.runsOK = 0, 0, 0, 0, 0, 0, 0
 	k.freshListAllFails = 0
 	var pv any
@@ -312,6 +313,12 @@ func (h *c10mH) apply(label string) bool {
 	}
 	h.check(when)
 	h.classes["verified-apply"] = true
+	if k.recreates > recreatesAtStart {
+		h.classes["verified-apply-after-table-rebuild"] = true
+		if k.injListFired > 0 && h.dispatchOn && len(h.eps) > 0 {
+			h.classes["verified-apply-after-rebuild-with-failed-listings"] = true
+		}
+	}
 	if h.dispatchOn && len(h.eps) > 0 {
 		h.classes["verified-apply-with-endpoints"] = true
 		if h.sinceFault > 0 {
@@ -322,18 +329,8 @@ func (h *c10mH) apply(label string) bool {
 	return true
 }
 
-func TestVerifC10NftMapsSync(t *testing.T) {
-	ev.Quiet()
-	oldPath := os.Getenv("PATH")
-	_ = os.Setenv("PATH", "/nonexistent-c10m") // table.go's failure path execs the real nft for diagnostics
-	defer func() { _ = os.Setenv("PATH", oldPath) }()
-
-	rec := ev.New("C10", "nftmaps",
-		"rapid state machine: the real nftables Table (filter TableLayer) + Maps on the knftables.Fake based kernel of C15's nftables unit; the set of workload interfaces (7 names incl. names that are prefixes of others, a 15-character name and a second prefix) changes over time and is handed over like endpointManager does (endpoint chains, rules.DispatchMappings -> AddOrReplaceMap, rules.WorkloadDispatchChains); ops: change endpoints, re-render an endpoint's chains, Apply, clock advance, InvalidateDataplaneCache, forced resync+Apply, restart (same or changed endpoints), dispatch teardown/setup (RemoveMap), edits by another program (delete/add/re-point map elements, flush a map, delete a map together with its users, delete an endpoint chain with its elements, delete the whole table; between ops or racing before Felix's write), injected transaction and list failures. Non-trivial = a verified Apply with >=1 endpoint that follows >=1 fault or foreign edit; distinct = op sequence",
-		"the C15 open finding (a write from a view known to be unreliable after a failed ListAll) is kept out of this unit: no ListAll failure while a Table has not read the kernel yet, nor together with a killed-after-commit transaction",
-		"kernel model as in C15's nftables unit (knftables.Fake + post-commit in-use check)")
-	defer rec.Write()
-	cfg := rules.Config{
+func c10mConfig() rules.Config {
+	return rules.Config{
 		IPSetConfigV4:         ipsets.NewIPVersionConfig(ipsets.IPFamilyV4, "cali", nil, nil),
 		IPSetConfigV6:         ipsets.NewIPVersionConfig(ipsets.IPFamilyV6, "cali", nil, nil),
 		WorkloadIfacePrefixes: []string{"cali", "tap"},
@@ -341,6 +338,46 @@ func TestVerifC10NftMapsSync(t *testing.T) {
 		MarkEndpoint: 0xff000, MarkNonCaliEndpoint: 0x1000,
 		FilterDenyAction: "DROP",
 	}
+}
+
+// TestVerifC10NftMapsRebuildAfterBrownout: deterministic companion of the state machine — a
+// workload arrives while six transactions in a row and the element listings in between fail;
+// Felix falls back to rebuilding its table; afterwards every known interface must still be
+// dispatched to its own chain.
+func TestVerifC10NftMapsRebuildAfterBrownout(t *testing.T) {
+	ev.Quiet()
+	oldPath := os.Getenv("PATH")
+	_ = os.Setenv("PATH", "/nonexistent-c10m")
+	defer func() { _ = os.Setenv("PATH", oldPath) }()
+	h := &c10mH{t: t, classes: map[string]bool{}, eps: map[string]int{"cali1": 0, "cali12": 0}, dispatchOn: true}
+	h.rr = rules.NewRenderer(c10mConfig(), true)
+	h.k = c15nNewKernel(knftables.IPv4Family)
+	h.newTable()
+	h.sync()
+	h.apply("A")
+	h.eps["cali2"] = 0
+	h.sync()
+	for i := 0; i < 6; i++ {
+		h.k.runFaults = append(h.k.runFaults, "fail")
+	}
+	h.k.brownout = true
+	if !h.apply("A") || !h.classes["verified-apply-after-rebuild-with-failed-listings"] {
+		t.Fatalf("HARNESS-GAP: script did not end in a verified Apply after a table rebuild with failed listings; classes=%v", h.classes)
+	}
+}
+
+func TestVerifC10NftMapsSync(t *testing.T) {
+	ev.Quiet()
+	oldPath := os.Getenv("PATH")
+	_ = os.Setenv("PATH", "/nonexistent-c10m") // table.go's failure path execs the real nft for diagnostics
+	defer func() { _ = os.Setenv("PATH", oldPath) }()
+
+	rec := ev.New("C10", "nftmaps",
+		"rapid state machine: the real nftables Table (filter TableLayer) + Maps on the knftables.Fake based kernel of C15's nftables unit; the set of workload interfaces (7 names incl. names that are prefixes of others, a 15-character name and a second prefix) changes over time and is handed over like endpointManager does (endpoint chains, rules.DispatchMappings -> AddOrReplaceMap, rules.WorkloadDispatchChains); ops: change endpoints, re-render an endpoint's chains, Apply, clock advance, InvalidateDataplaneCache, forced resync+Apply, restart (same or changed endpoints), dispatch teardown/setup (RemoveMap), edits by another program (delete/add/re-point map elements, flush a map, delete a map together with its users, delete an endpoint chain with its elements, delete the whole table; between ops or racing before Felix's write), injected transaction and list failures, brownouts (n transactions in a row fail and, while they do, the map-element listings of the resyncs in between fail too; n>=6 makes Felix rebuild its table). Non-trivial = a verified Apply with >=1 endpoint that follows >=1 fault or foreign edit; distinct = op sequence",
+		"the C15 open finding (a write from a view known to be unreliable after a failed ListAll) is kept out of this unit: no ListAll failure while a Table has not read the kernel yet, nor together with a killed-after-commit transaction",
+		"kernel model as in C15's nftables unit (knftables.Fake + post-commit in-use check)")
+	defer rec.Write()
+	cfg := c10mConfig()
 	rapid.Check(t, func(t *rapid.T) {
 		h := &c10mH{t: t, classes: map[string]bool{}, eps: map[string]int{}, dispatchOn: true}
 		h.rr = rules.NewRenderer(cfg, true)
@@ -485,6 +522,20 @@ func TestVerifC10NftMapsSync(t *testing.T) {
 				h.classes["fault-run-"+kind] = true
 				h.ops = append(h.ops, "f")
 			},
+			"injectBrownout": func(t *rapid.T) {
+				// A period of nft trouble: the next n transactions fail and, while they do, so do
+				// the per-map element listings of the resyncs in between.
+				n := rapid.SampledFrom([]int{2, 5, 6, 6, 7, 8, 10}).Draw(t, "failingTransactions")
+				for i := 0; i < n; i++ {
+					k.runFaults = append(k.runFaults, "fail")
+				}
+				k.brownout = true
+				h.classes["fault-brownout"] = true
+				if len(k.runFaults) >= 6 {
+					h.classes["fault-brownout-x6+"] = true
+				}
+				h.ops = append(h.ops, "b")
+			},
 			"injectListFault": func(t *rapid.T) {
 				kind := rapid.SampledFrom([]string{"listall", "rules", "elements", "elements"}).Draw(t, "kind")
 				n := rapid.SampledFrom([]int{1, 1, 2, 3}).Draw(t, "times")
@@ -531,7 +582,7 @@ func TestVerifC10NftMapsSync(t *testing.T) {
 			},
 			"resyncApply": func(t *rapid.T) {
 				// Forced resync, then Apply without interference: the dispatch must be exact.
-				k.runFaults, k.beforeRun = nil, nil
+				k.runFaults, k.beforeRun, k.brownout = nil, nil, false
 				k.listAllFaults, k.listRulesFaults, k.listElemFaults = 0, 0, 0
 				h.root.InvalidateDataplaneCache("verif")
 				if h.apply("C") {
